@@ -52,3 +52,8 @@ claim("C20", "exploration",
       "Histories mixing blocks that carry external-trigger counts and drop counts with START/STOP/PAUSE/UNPAUSE/label requests over several sessions; after each STOP the external-trigger, data-drop and experiment-state files are parsed and compared with the harness's event log (exactly once, in order, nothing from inactive periods or earlier sessions, START first and STOP last with monotone timestamps, nothing left open).",
       "The event log kept by the harness is the reference; pause does not suspend the run log (the statement says 'while writing is active').",
       "event-log vs file-content oracle (exactly-once, ordering) over recorded histories", "DESIGN.md §3 C20")
+
+claim("C07", "fault_enumeration",
+      "The fault is a disk that stalls at a scripted point. Layer 1 runs asyncbufio.Writer (depths 1..64 and the real 1000) over a gated writer and checks at every Flush/Close return that the sink holds exactly the accepted payloads in order. Layer 2 points real LJH2.2/LJH3/OFF writers at a 4 KiB named pipe that is not drained until the scripted moment, forcing the 1000-entry queue to fill and reject; the byte stream is decoded and must be header + exactly the records whose WriteRecord returned nil, whole and in order, and complete when Flush returned.",
+      "Stall points are enumerated over (writer type x record size x stalled-from x released-when); within a stall the interleaving of producer and writer goroutine is left to the scheduler. Linux pipe semantics stand in for the disk.",
+      "fault injection (gated writer / undrained FIFO) + FIFO/atomicity oracle over unique ids", "DESIGN.md §3 C07")
